@@ -36,6 +36,17 @@ def make_app():
     def c2():
         raise ValueError('boom')
 
+    # the failure happens while the handler's OUTPUT is evaluated (first next() of a generator, a lazy iterable), with
+    # request data in the exception text
+    @app.route('/gencrash/<x:path>')
+    def g(x):
+        raise ValueError('cannot render <i>' + x + ' ' + app.request.query_string)
+        yield 'never'
+
+    @app.route('/gencrash')
+    def g2():
+        return (int(v) for v in [app.request.query_string])
+
     @app.route('/body', method='POST')
     def b():
         return app.request.body.read()
@@ -52,7 +63,7 @@ def request(apps, kind, ch, payload, want_json):
     app, crit = apps
     marked = 'zq' + payload + 'qz'
     env = base_environ()
-    path = {'404': '/nowhere', '405': '/only-post', '500': '/crash', '400': '/body', '413': '/body', 'critical': '/nowhere', '400p': '/x'}[kind]
+    path = {'404': '/nowhere', '405': '/only-post', '500': '/crash', '500g': '/gencrash', '400': '/body', '413': '/body', 'critical': '/nowhere', '400p': '/x'}[kind]
     the_app = app
     if kind == 'critical':
         the_app = crit
@@ -79,7 +90,7 @@ def request(apps, kind, ch, payload, want_json):
     status, line, headers, body, nsr = call_app(the_app, env)
     ctype = dict(headers).get('Content-Type', '')
     text = body.decode('utf8', 'replace')
-    return {'kind': 'critical' if kind == 'critical' else kind.rstrip('p'), 'ch': ch, 'payload': s2l(marked), 'json': bool(want_json) and kind != 'critical',
+    return {'kind': 'critical' if kind == 'critical' else kind.rstrip('pg'), 'ch': ch, 'payload': s2l(marked), 'json': bool(want_json) and kind != 'critical',
             'status': status, 'ctype': s2l(ctype), 'body': s2l(text), 'kind_full': kind, 'payload_text': payload}
 
 
@@ -95,7 +106,7 @@ def run(chk):
     apps = make_app()
     payloads = [''.join(t) for n in range(0, 4 if thorough else 3) for t in itertools.product(ALPHA, repeat=n)] + EXTRA
     recs = []
-    kinds = ['404', '405', '500', '400', '413', 'critical', '400p']
+    kinds = ['404', '405', '500', '500g', '400', '413', 'critical', '400p']
     for pl in payloads:
         combos = [(k, c) for k in kinds for c in ('path', 'query', 'host')]
         if not thorough:
